@@ -146,10 +146,12 @@ def nonoverlapLoop : Nat → List Block → Option (List Block)
       else (nonoverlapLoop n q').map (left :: ·)
     else (nonoverlapLoop n (nxt :: rest)).map (b :: ·)
 
+/-- blocks with more than one variant -/
+def bigOf (l : List Block) : List Block := l.filter (fun b => decide (b.length > 1))
+
 /-- `get_nonoverlapping_blocks` -/
 def nonoverlap (blocks : List Block) : Option (List Block) :=
-  let q := sortBlocks (blocks.filter (fun b => b.length > 1))
-  nonoverlapLoop (totalLen q + 1) q
+  nonoverlapLoop (totalLen (sortBlocks (bigOf blocks)) + 1) (sortBlocks (bigOf blocks))
 
 /-! ## per-chromosome statistics -/
 
@@ -217,20 +219,20 @@ structure Row where
   phasedSnvs : Nat
 deriving Repr, DecidableEq
 
-/-- `get_detailed_stats` -/
+/-- `get_detailed_stats` (`if block_sizes:` = there is a block with more than one variant) -/
 def detailed (s : Stats) : Row :=
-  let big := s.blocks.filter (fun b => b.length > 1)
-  let sizes := sortNat (big.map List.length)
-  let lengths := sortNat ((s.splitBlocks.filter (fun b => b.length > 1)).map span)
-  if sizes.isEmpty then
+  if (bigOf s.blocks).isEmpty then
     { variants := s.variants, phased := 0, unphased := s.unphased,
       singletons := (s.blocks.filter (fun b => b.length == 1)).length, blocks := 0, sizes := [], lengths := [], bpSum := 0,
       het := s.het, hetSnvs := s.hetSnvs, phasedSnvs := 0 }
   else
-    { variants := s.variants, phased := sizes.sum, unphased := s.unphased,
-      singletons := (s.blocks.filter (fun b => b.length == 1)).length, blocks := sizes.length, sizes := sizes,
-      lengths := lengths, bpSum := lengths.sum, het := s.het, hetSnvs := s.hetSnvs,
-      phasedSnvs := (big.map countSnvs).sum }
+    { variants := s.variants, phased := (sortNat ((bigOf s.blocks).map List.length)).sum, unphased := s.unphased,
+      singletons := (s.blocks.filter (fun b => b.length == 1)).length,
+      blocks := (sortNat ((bigOf s.blocks).map List.length)).length,
+      sizes := sortNat ((bigOf s.blocks).map List.length),
+      lengths := sortNat ((bigOf s.splitBlocks).map span),
+      bpSum := (sortNat ((bigOf s.splitBlocks).map span)).sum, het := s.het, hetSnvs := s.hetSnvs,
+      phasedSnvs := ((bigOf s.blocks).map countSnvs).sum }
 
 /-! ## block list and GTF -/
 
